@@ -4,6 +4,8 @@ scripts).  Tie: K2 over generated C++20 coroutine bodies (tools/k2t.py, harness/
 with the extracted model; the extracted monitor and an independent Python monitor run on the implementation's
 traces.  K1 (shim20): the stop-request thunk of task<> (refCount_ election) on the real task.hpp under explored
 schedules vs the SrThunk model (coq/Properties_C10_srthunk.v).
+K3: task<> object operations outside a run (move-construct / move-assign / destroy without awaiting / await) on the
+real task<int> vs the TaskBox model (coq/Properties_C10_taskbox.v), tracked by-value arguments.
 Below the model: frame allocation, symmetric transfer, compiler generated coroutine code."""
 import k1, k2t
 from units.sr_thunk import SrThunk
@@ -14,5 +16,6 @@ def run(chk, replay=None):
     chk.cov["trusted_base"] = ["g++ 12 coroutine code generation", "harness/k2t.hpp", "ocaml/handlers/h_tcalc.ml (rendering)"]
     chk.prove()
     quick = chk.tier == "quick"
+    k2t.run_taskbox(chk, 300 if quick else 3000)
     k1.run_unit(chk, SrThunk())
     k2t.run_k2t(chk, n_tus=5 if quick else 24, cases_per_tu=8, scripts_per_case=40 if quick else 80)
